@@ -17,24 +17,15 @@
   changes the regenerated table and these `decide` proofs stop checking (a broken obligation, DESIGN §5),
   whether or not a generated input happens to hit a slice with spare capacity.
 -/
-import JdModel.PathHeap
-import JdModel.Gen.PathSites
+import JdProofs.PathSitesDefs
 
 namespace Jd.PathSites
 open Jd Jd.PathHeap
-
-def isV2 (s : String × SiteKind × SExpr) : Bool := s.1.startsWith "v2/"
-def isV1 (s : String × SiteKind × SExpr) : Bool := s.1.startsWith "lib/"
-def isWrite (s : String × SiteKind × SExpr) : Bool := s.2.1 == .write
-def ok (s : String × SiteKind × SExpr) : Bool := siteOk s.2.1 s.2.2
 
 /-- v2: every stored path is a copy, every path expression of the diff-building code is safe -/
 theorem v2_diff_paths_ok : (Gen.pathSites.filter (fun s => isV2 s && !isWrite s)).all ok = true := by
   decide +kernel
 
-/-- v1 (lib/): the same -/
-theorem v1_diff_paths_ok : (Gen.pathSites.filter (fun s => isV1 s && !isWrite s)).all ok = true := by
-  decide +kernel
 
 /-- the renderers (v2 and v1) edit copies only -/
 theorem renderers_write_copies : (Gen.pathSites.filter isWrite).all ok = true := by
